@@ -87,7 +87,7 @@ fn main() {
             let p = progs[c].clone();
             handles.push(
                 std::thread::Builder::new()
-                    .name(format!("store-pool_thread_{}", role))
+                    .name(client_thread_name("store", &role, ri % 2 == 1))
                     .spawn(move || client_main_multi(m, role, p))
                     .unwrap(),
             );
